@@ -220,7 +220,8 @@ reg('C20', engine='llsym',
          'accepts exactly the sizes that fit Py_ssize_t and never records a wrapped value; fresh memory is zero; '
          'ffi.new(T, init) succeeds iff ffi.new(T) + assignment does and leaves the same bytes, for list initializers, a '
          'struct and a union ending in a flexible array and a nested var-sized struct given as cdata; dict initializers set exactly the named '
-         'fields (unknown key: KeyError), sequences fill leading fields in order, a union sequence sets its first member only, the rest stays zero.',
+         'fields (unknown key: KeyError), sequences fill leading fields in order, a union sequence sets its first member only, the rest stays zero; '
+         'ffi.sizeof(p[0]) of a var-sized struct/union is the allocated size.',
     note='Trusted: clang IR, llsym semantics, calloc/malloc contracts, CPython contracts. Partial: small initializers, '
          'four aggregate shapes; custom allocators not covered.',
     technique='symbolic execution of LLVM IR, SMT (z3 bit-vectors)')
@@ -327,9 +328,10 @@ reg('C14', engine='llsym',
          'stubs (value | unconvertible | raises | None): arguments reach Python exactly; a convertible result reaches C exactly '
          '(widened to a whole ffi_arg through libffi); otherwise C receives the error= value (or onerror\'s convertible value); '
          'no exception is pending on return; swallowed exceptions are reported.  Plus the extern "Python" wrappers generated at '
-         'run time by the working tree\'s Recompiler, executed with cffi_call_python and the above.',
+         'run time by the working tree\'s Recompiler, executed with cffi_call_python and the above; a struct result whose onerror '
+         'value fails to convert after some fields were written: C receives exactly the error= value.',
     note='Trusted: clang IR, llsym semantics, CPython contracts (PyErr_Fetch/Restore, unraisable hook). libffi closure '
-         'trampoline, struct/long double/pointer signatures, sub-interpreter refresh are outside.',
+         'trampoline, long double/pointer signatures, sub-interpreter refresh are outside.',
     technique='symbolic execution of LLVM IR (backend + run-time generated module) with nondeterministic Python-function stubs, SMT (z3)')
 
 reg('C06', engine='llsym',
